@@ -231,6 +231,21 @@ theorem rotVec_isometry (k p q : Pt3 ℝ) (d : ℝ) (hk : k.x * k.x + k.y * k.y 
 /-- columns of the linear part of a model matrix -/
 def cols (m : Mt4 ℝ) : Spec.Mt4Cols ℝ := ⟨m.x.asPt3, m.y.asPt3, m.z.asPt3⟩
 
+/-- away from `eye = center` the repaired function is the published one; at `eye = center` it is the
+identity (the published one normalizes the zero vector) -/
+theorem lookAtLh_of_ne (eye center up : Pt3 ℝ) (hne : Pt3.sub center eye ≠ ⟨0, 0, 0⟩) :
+    Mt4.lookAtLh eye center up = Mt4.lookAtLhLegacy eye center up := by
+  unfold Mt4.lookAtLh Mt4.lookAtLhLegacy
+  simp only []
+  rw [if_neg]
+  intro hc
+  simp only [Bool.and_eq_true, eqb_real] at hc
+  apply hne
+  ext <;> simp [hc.1.1, hc.1.2, hc.2]
+theorem lookAtLh_same (p up : Pt3 ℝ) : Mt4.lookAtLh p p up = Mt4.identity := by
+  unfold Mt4.lookAtLh
+  simp [Pt3.sub, eqb_real]
+
 /-- For eye ≠ center and up not parallel to the direction f = (center − eye)/|center − eye|,
 `look_at_matrix_lh` acts on vectors as a proper rotation taking +Z to f and +X to a vector
 perpendicular to up. -/
@@ -266,7 +281,8 @@ theorem lookAt_rotation (eye center up : Pt3 ℝ)
         -(Pt3.dot (Pt3.cross f (Pt3.normalized w)) eye)⟩,
       ⟨f.x, f.y, f.z, -(Pt3.dot f eye)⟩, ⟨0, 0, 0, 1⟩⟩ := by
     show Mt4.lookAtLh eye center up = _
-    unfold Mt4.lookAtLh
+    rw [lookAtLh_of_ne eye center up hne]
+    unfold Mt4.lookAtLhLegacy
     simp only []
     rw [if_neg]
     exact (Bool.eq_false_iff.mp hcond)
@@ -308,7 +324,12 @@ theorem lookAt_vertical (eye center : Pt3 ℝ) (hx : center.x = eye.x) (hy : cen
   have e180 : toRad (lit 180 : ℝ) = Real.pi := by simp [toRad, lit]; field_simp
   have hm : m = if (center.z - eye.z) / |center.z - eye.z| < 0 then Mt4.rotXCS (-1) 0 else Mt4.identity := by
     show Mt4.lookAtLh eye center ⟨0, 0, 1⟩ = _
-    unfold Mt4.lookAtLh
+    rw [lookAtLh_of_ne eye center ⟨0, 0, 1⟩ (by
+      intro h0
+      have := congrArg Pt3.z h0
+      simp [Pt3.sub] at this
+      exact hd this)]
+    unfold Mt4.lookAtLhLegacy
     simp only []
     change (if (Cmp.eqb (Pt3.cross (⟨0, 0, 1⟩ : Pt3 ℝ) f).x 0 && Cmp.eqb (Pt3.cross (⟨0, 0, 1⟩ : Pt3 ℝ) f).y 0
       && Cmp.eqb (Pt3.cross (⟨0, 0, 1⟩ : Pt3 ℝ) f).z 0) = true then
